@@ -23,7 +23,7 @@ Clause(c) ==
   ELSE IF \E k \in 1..N(c) : c.well[k] /\ ~c.fix_center /\ (Abs(c.x0[k] - c.tx0) > 3 * c.x0_err[k] + 52 \/ Abs(c.y0[k] - c.ty0) > 3 * c.y0_err[k] + 52) THEN "recovers_centre"
   ELSE IF \E k \in 1..N(c) : c.well[k] /\ ~c.fix_eps /\ Abs(c.eps[k] - c.teps) > 3 * c.eps_err[k] + 330 THEN "recovers_ellipticity"
   ELSE IF \E k \in 1..N(c) : c.well[k] /\ ~c.fix_pa /\ c.teps >= 1600 /\ PaDiff(c.pa[k], c.tpa) > 3 * c.pa_err[k] + 500 THEN "recovers_position_angle"
-  ELSE IF \E k \in 1..N(c) : c.well[k] /\ Abs(c.intens_rel[k] - 16384) > 330 THEN "recovers_intensity"
+  ELSE IF \E k \in 1..N(c) : c.well[k] /\ Abs(c.intens_rel[k] - 16384) > c.intens_tol THEN "recovers_intensity"
   ELSE IF c.model_checked /\ c.model_maxrel > c.model_tol THEN "ellipse_model_reproduces_image"
   ELSE "ok"
 Init == i = 1
